@@ -89,12 +89,19 @@ def coq_flat(ctx, header, exprs, name, timeout=600):
         lines.append("Print ev_%d." % i)
     rc, out = ctx.coq_run("\n".join(lines), name, timeout)
     if rc != 0:
-        raise RuntimeError("coqc failed on %s:\n%s" % (name, out[-3000:]))
+        why = ("out of memory" if "out of memory" in out[-400:].lower() else
+               "timeout" if rc == 124 or "[TIMEOUT" in out[-200:] else "error")
+        m = _re.search(r'File "[^"]*", line \d+, characters [^\n]*\n(?:.*\n){0,6}', out)
+        raise RuntimeError("coqc %s on %s.v (rc=%s, %d exprs, %d bytes of output): %s"
+                           % (why, name, rc, len(exprs), len(out), (m.group(0) if m else out[-300:]).strip()))
     res = []
+    pos = 0
     for i in range(len(exprs)):
-        m = _re.search(r"ev_%d\s*=\s*(.*?)\n\s*:\s*list Z" % i, out, _re.S)
+        m = _re.compile(r"ev_%d\s*=\s*(.*?)\n\s*:\s*list Z" % i, _re.S).search(out, pos)
         if not m:
-            raise RuntimeError("cannot parse ev_%d in:\n%s" % (i, out[-2000:]))
+            raise RuntimeError("cannot find the value of ev_%d in the output of %s.v (%d bytes): ...%s"
+                               % (i, name, len(out), out[-300:].strip()))
+        pos = m.end()
         res.append([int(x) for x in _re.findall(r"-?\d+", m.group(1).replace("%Z", ""))])
     return res
 
@@ -243,7 +250,7 @@ def matcher_table(ctx, g):
     n = ctx.n
     T.append(("REO_Quoted", "rx_groups REO_Quoted", rx_bool("REO_Quoted"), "\"'a# ", n(5, 7)))
     T.append(("REO_QuotedSingle", "rx_groups REO_QuotedSingle", rx_bool("REO_QuotedSingle"), "\"'a# ", n(5, 7)))
-    T.append(("REO_PathNode", "rx_groups REO_PathNode", rx_bool("REO_PathNode"), "a_1.-Z", n(5, 8)))
+    T.append(("REO_PathNode", "rx_groups REO_PathNode", rx_bool("REO_PathNode"), "a_1.-Z", n(5, 7)))
     T.append(("REO_LatLonNE", "rx_groups REO_LatLonNE", rx_find("REO_LatLonNE"), "1.Nn,Sex-", n(4, 6)))
     T.append(("REO_LatLonNE", "rx_groups REO_LatLonNE", rx_find("REO_LatLonNE"), "12.E,", n(6, 8)))
     T.append(("REO_LatLonSW", "rx_groups REO_LatLonSW", rx_find("REO_LatLonSW"), "1.Ss,Nwx-", n(4, 6)))
@@ -251,7 +258,7 @@ def matcher_table(ctx, g):
     for nm, a2, a3 in [("REO_PointXY", "1-+.xyX,a", "1-.xy,Y"), ("REO_PointNE", "1-+.neN,a", "1-.ne,E"),
                        ("REO_PointFS", "1-+.fsF,a", "1-.fs,S")]:
         T.append((nm, "rx_groups " + nm, rx_find(nm), a2, n(4, 6)))
-        T.append((nm, "rx_groups " + nm, rx_find(nm), a3, n(5, 7)))
+        T.append((nm, "rx_groups " + nm, rx_find(nm), a3, n(5, 6)))
     for nm, ls in [("REO_PointXYZ", "xyz"), ("REO_PointNED", "ned"), ("REO_PointFSB", "fsb")]:
         T.append((nm, "rx_groups " + nm, rx_find(nm), "1-" + ls + ",", n(6, 7)))
         T.append((nm, "rx_groups " + nm, rx_find(nm), "1." + ls, n(7, 8)))
@@ -275,14 +282,14 @@ def matcher_table(ctx, g):
     FL = "fun s => if float_ok s then Some (@nil (list Z)) else None"
     CX = "fun s => if complex_ok s then Some (@nil (list Z)) else None"
     T.append(("int10", "int_of 10", py_int(10), "01a9_-+xg", n(4, 6)))
-    T.append(("int16", "int_of 16", py_int(16), "01afx_-+gX", n(4, 6)))
-    T.append(("int16", "int_of 16", py_int(16), "0xX_1F", n(5, 8)))
-    T.append(("float", FL, py_ok(float), "1.e-+_nE", n(4, 7)))
+    T.append(("int16", "int_of 16", py_int(16), "01afx_-+gX", n(4, 5)))
+    T.append(("int16", "int_of 16", py_int(16), "0xX_1F", n(5, 7)))
+    T.append(("float", FL, py_ok(float), "1.e-+_nE", n(4, 6)))
     T.append(("float", FL, py_ok(float), "infatyINn-+1.", n(3, 5)))
     if ctx.thorough:
         T.append(("float", FL, py_ok(float), "infty", 8))
-    T.append(("complex", CX, py_ok(complex), "1.e-+_jJ()", n(4, 6)))
-    T.append(("complex", CX, py_ok(complex), "1+-j()", n(5, 8)))
+    T.append(("complex", CX, py_ok(complex), "1.e-+_jJ()", n(4, 5)))
+    T.append(("complex", CX, py_ok(complex), "1+-j()", n(5, 7)))
     T.append(("complex", CX, py_ok(complex), "infa-+jn1", n(4, 6)))
     return T
 
@@ -491,13 +498,13 @@ def float_samples(ctx):
           0.30000000000000004, 4503599627370496.0, 9007199254740993.0, 1e21, 123456789012345680.0]
     xs += [10.0 ** k for k in range(-30, 31)] + [2.0 ** k for k in range(-60, 61, 3)]
     xs += [float(k) for k in range(-20, 21)] + [k / 8.0 for k in range(-20, 21)]
-    n = ctx.n(150, 20000)
+    n = ctx.n(150, 4000)
     while n > 0:
         x = struct.unpack("<d", struct.pack("<Q", ctx.rng.getrandbits(64)))[0]
         if x == x and x not in (float("inf"), float("-inf")):
             xs.append(x)
             n -= 1
-    for _ in range(ctx.n(80, 5000)):
+    for _ in range(ctx.n(80, 1500)):
         xs.append(ctx.rng.uniform(-1, 1) * 10.0 ** ctx.rng.randint(-12, 12))
     return xs
 
@@ -523,8 +530,14 @@ def check_float_oracle(ctx, building, info, lits):
             texts.append(t)
     # transliteration of float_shape: Coq vs Python on the repr texts and on grammar literals
     probe = texts + [t for t in lits[:200] if t not in seen]
-    flat = coq_flat(ctx, ENC, ["map (fun t => if float_shape t then 1 else 0) [%s]" % ";\n".join(zl(t) for t in probe)],
-                    "fshape")[0]
+    from concurrent.futures import ThreadPoolExecutor
+    chunks = [probe[i:i + 1500] for i in range(0, len(probe), 1500)]
+
+    def fs(k):
+        return coq_flat(ctx, ENC, ["map (fun t => if float_shape t then 1 else 0) [%s]"
+                                   % ";\n".join(zl(t) for t in chunks[k])], "fshape_%d" % k)[0]
+    with ThreadPoolExecutor(max_workers=8) as ex:
+        flat = [b for r in ex.map(fs, range(len(chunks))) for b in r]
     if len(flat) != len(probe):
         raise RuntimeError("float_shape output length mismatch")
     for t, b in zip(probe, flat):
@@ -779,16 +792,20 @@ def check_builder(ctx, building, excepting, info, lits):
 
 
 # --------------------------------------------------------------------------------------------- search
-def property_statement(building, g, quick=True):
-    """The property's executable statement on the implementation ALONE.  Returns a replay dict or None."""
-    full = building.Convert2StrBoolPathCoordPointNum
-    need = building.Convert2StrBoolCoordNum
-    num = building.Convert2Num
-    ctxs = [("direct data (Convert2StrBoolPathCoordPointNum)", full, True, True),
-            ("need goal (Convert2StrBoolCoordNum)", need, True, False),
-            ("period/tolerance (Convert2Num)", num, False, False)]
+def property_statement(building, g, ctx=None):
+    """The property's executable statement on the implementation ALONE, through EVERY converter that has the
+    relevant step (features read off the converter's name).  Returns a replay dict or None."""
+    LABEL = {"StrBoolPathCoordPointNum": "direct data", "StrBoolCoordNum": "need goal", "Num": "period/tolerance"}
+    convs = []
+    for nm in CHAINS[:-1]:
+        convs.append((("%s (Convert2%s)" % (LABEL[nm], nm)) if nm in LABEL else "Convert2" + nm,
+                      getattr(building, "Convert2" + nm),
+                      {"quote": "Str" in nm, "bool": "Bool" in nm, "path": "Path" in nm, "latlon": "Coord" in nm,
+                       "point": "Point" in nm}))
+    ncase = [0]
 
     def call(f, s):
+        ncase[0] += 1
         try:
             return f(s)
         except Exception as ex:
@@ -798,43 +815,59 @@ def property_statement(building, g, quick=True):
         return type(a) is type(b) and (a == b or (a != a and b != b))
 
     def fail(key, where, text, got, want, why):
+        if ctx is not None:
+            ctx.extra["implementation_only_cases"] = ncase[0]
         return {"key": key, "context": where, "literal": text, "observed": repr(got), "expected": repr(want),
                 "why": why,
-                "contradicts": ("correspondence B/C (float literals have no Coq theorem: CPython float() is modelled)"
+                "contradicts": ("correspondence B/D (the float VALUE is CPython's; Props.float_roundtrip under its oracle)"
                                 if key == "c17-float-roundtrip"
                                 else "C17.Props." + key.replace("c17-", "").replace("-", "_"))}
 
     ints = list(range(-300, 301)) + [10 ** k for k in range(3, 25)] + [-(10 ** k) - 1 for k in range(3, 25)] + \
         [0xfade, 0xbad, 255, 4095, 65535, 2 ** 63, -2 ** 64 + 3]
-    for where, f, hasbool, haspoint in ctxs:
+    floats = [0.5, -0.25, 1.5, 100.0, 1e22, 1e-5, 3.141592653589793, 1.7976931348623157e+308, 5e-324, -2.5e-7,
+              0.1, 1e16, 123456.789]
+    spell = [("True", True), ("False", False), ("None", None)] + \
+        [(v, True) for s in ("true", "yes") for v in _case_variants(s)] + \
+        [(v, False) for s in ("false", "no") for v in _case_variants(s)] + \
+        [(v, None) for v in _case_variants("none")]
+    alpha = "a5 x.-N"
+    strs = [""] + ["".join(t) for n in (1, 2, 3) for t in itertools.product(alpha, repeat=n)] + \
+        ["true", "None", "1x2y", "120N10.5", "0x1f", "1e5", "a.b.c", "it's", 'say "hi"']
+    # lat/lon literals, both hemispheres, non-zero minutes; expected value computed here, independently
+    latlons = []
+    for deg in ("0", "7", "70", "120", "007"):
+        for h in "NEne,SWsw":
+            for mn in ("30.0", "56.25", "10.5", "0.75", "59.999"):
+                v = float(deg) + float(mn) / 60.0
+                latlons.append((deg + h + mn, -v if h in "SWsw" else v))
+    seen_latlon = {}
+    for where, f, ft in convs:
         for z in ints:
             got = call(f, str(z))
             if not same(got, z):
                 return fail("c17-int-roundtrip", where, str(z), got, z, "str(int) does not convert back to the int")
-        # decimal before hex, hex before float
-        for s, want in [("10", 10), ("0x10", 16), ("1e5", 0x1e5), ("ff", 255)]:
-            if where.startswith("direct") and s == "ff":
-                want = "ff"  # path text comes before numbers in direct data
+        # decimal before hex, hex before float; path text before numbers
+        for s, want in [("10", 10), ("0x10", 16), ("1e5", 0x1e5), ("ff", "ff" if ft["path"] else 255)]:
             got = call(f, s)
             if not same(got, want):
                 return fail("c17-order-doc", where, s, got, want, "documented conversion order violated")
-        floats = [0.5, -0.25, 1.5, 100.0, 1e22, 1e-5, 3.141592653589793, 1.7976931348623157e+308, 5e-324, -2.5e-7,
-                  0.1, 1e16, 123456.789]
         for x in floats:
             got = call(f, repr(x))
             if not same(got, x):
                 return fail("c17-float-roundtrip", where, repr(x), got, x, "repr(float) does not convert back")
-        if hasbool:
-            for lit, want in [("True", True), ("False", False), ("None", None)] + \
-                    [(v, True) for s in ("true", "yes") for v in _case_variants(s)] + \
-                    [(v, False) for s in ("false", "no") for v in _case_variants(s)] + \
-                    [(v, None) for v in _case_variants("none")]:
+        if ft["bool"]:
+            for lit, want in spell:
                 got = call(f, lit)
                 if not same(got, want):
                     return fail("c17-bool-none-roundtrip", where, lit, got, want, "boolean/None spelling not converted")
-            alpha = "a5 x.-N"
-            strs = [""] + ["".join(t) for n in (1, 2, 3) for t in itertools.product(alpha, repeat=n)] + \
-                ["true", "None", "1x2y", "120N10.5", "0x1f", "1e5", "a.b.c", "it's", 'say "hi"']
+        elif not ft["path"]:
+            for lit, _ in spell:
+                got = call(f, lit)
+                if not isinstance(got, ValueError):
+                    return fail("c17-num-chains-refuse-spellings", where, lit, got, "ValueError",
+                                "a chain without the boolean step must refuse the spelling")
+        if ft["quote"]:
             for s in strs:
                 for q in "\"'":
                     if q in s:
@@ -843,7 +876,18 @@ def property_statement(building, g, quick=True):
                     if not same(got, s):
                         return fail("c17-quoted-roundtrip", where, q + s + q, got, s,
                                     "quoted quote-free string does not convert back to itself")
-        if haspoint:
+        if ft["latlon"]:
+            for lit, want in latlons:
+                got = call(f, lit)
+                if not same(got, want):
+                    return fail("c17-latlon-roundtrip", where, lit, got, want,
+                                "lat/lon literal is not sign * (deg + min/60)")
+                # the same literal converts to the same value in every chain that has the lat/lon step
+                if lit in seen_latlon and not same(seen_latlon[lit][1], got):
+                    return fail("c17-latlon-roundtrip", where, lit, got, seen_latlon[lit][1],
+                                "lat/lon literal converts differently than in " + seen_latlon[lit][0])
+                seen_latlon.setdefault(lit, (where, got))
+        if ft["point"]:
             rng = [-12, -1, 0, 3, 10, 250]
             for cls, ls in [("Pxy", "xy"), ("Pne", "ne"), ("Pfs", "fs"), ("Pxyz", "xyz"), ("Pned", "ned"), ("Pfsb", "fsb")]:
                 for tup in itertools.product(rng, repeat=len(ls)):
@@ -855,16 +899,20 @@ def property_statement(building, g, quick=True):
                                 and all(type(x) is float for x in got)):
                             return fail("c17-point-roundtrip", where, lit, got, want,
                                         "integer-coordinate point literal does not convert to the point")
-            for lit, want in [("120N10.5", 120 + 10.5 / 60.0), ("80W30.75", -(80 + 30.75 / 60.0)),
-                              ("10n10.5", 10 + 10.5 / 60.0), ("50E30.75", 50 + 30.75 / 60.0),
-                              ("7s30.0", -7.5), ("7w30.0", -7.5), ("7S30.0", -7.5), ("7e30.0", 7.5)]:
-                got = call(f, lit)
-                if not same(got, want):
-                    return fail("c17-order-doc", where, lit, got, want, "lat/lon literal not converted as documented")
+                for tup in itertools.product(["1.5", "-2.", "+3", "007.250"], repeat=len(ls)):
+                    lit = "".join(c + l for c, l in zip(tup, ls))
+                    want = getattr(g, cls)(*[float(c) for c in tup])
+                    got = call(f, lit)
+                    if not (type(got) is type(want) and tuple(got) == tuple(want)):
+                        return fail("c17-point-dec-roundtrip", where, lit, got, want,
+                                    "decimal-coordinate point literal does not convert to the point")
+        if ft["path"]:
             for lit in ["a.b", ".a.b", "a", ".a.b.", "a_1.b2"]:
                 got = call(f, lit)
                 if not same(got, lit):
                     return fail("c17-order-doc", where, lit, got, lit, "path text not kept as text")
+    if ctx is not None:
+        ctx.extra["implementation_only_cases"] = ncase[0]
     return None
 
 
@@ -903,19 +951,22 @@ def run(ctx):
     from ioflo.base import building, excepting
     import ioflo.base.globaling as g
 
-    t0 = time.time()
-    nb_a = check_matchers(ctx, g)
-    t1 = time.time()
     lits = literal_grammar(ctx)
-    nb_b, metas = check_direct(ctx, building, info, lits)
-    t2 = time.time()
-    nb_c = check_builder(ctx, building, excepting, info, builder_literals(ctx, building))
-    t3 = time.time()
-    nb_d = check_float_oracle(ctx, building, info, lits)
-    t4 = time.time()
-    ctx.extra["mismatches"] = {"matchers": nb_a, "direct": nb_b, "builder": nb_c, "float_oracle": nb_d}
-    ctx.extra["phase_seconds"] = {"matchers": round(t1 - t0, 1), "direct": round(t2 - t1, 1),
-                                  "builder": round(t3 - t2, 1), "float_oracle": round(t4 - t3, 1)}
+    phases = [("matchers", lambda: check_matchers(ctx, g)),
+              ("direct", lambda: check_direct(ctx, building, info, lits)[0]),
+              ("builder", lambda: check_builder(ctx, building, excepting, info, builder_literals(ctx, building))),
+              ("float_oracle", lambda: check_float_oracle(ctx, building, info, lits))]
+    mism, secs = {}, {}
+    for name, fn in phases:
+        t0 = time.time()
+        try:
+            mism[name] = fn()
+        except Exception as ex:  # a phase that cannot run is a broken tie with a readable reason, never silence
+            mism[name] = "not run"
+            ctx.tie_broken("harness", "phase %s could not run" % name, ("%s: %s" % (type(ex).__name__, ex))[:1500])
+        secs[name] = round(time.time() - t0, 1)
+    ctx.extra["mismatches"] = mism
+    ctx.extra["phase_seconds"] = secs
     ctx.exhaustive = False
     ctx.settle(lambda: search(ctx))
 
@@ -925,4 +976,7 @@ def search(ctx):
     getConsole().reinit(verbosity=0)
     from ioflo.base import building
     import ioflo.base.globaling as g
-    return property_statement(building, g)
+    found = property_statement(building, g, ctx)
+    ctx.evaluations += ctx.extra.get("implementation_only_cases", 0)
+    ctx.distribution["implementation-only statement"] = ctx.extra.get("implementation_only_cases", 0)
+    return found
